@@ -2014,7 +2014,7 @@ func endRawIndex(src []byte, marker []byte) int {
 		}
 		// Read the marker.
 		if l := len(marker); l > 0 {
-			if len(src) < i+l || !bytes.Equal(src[i:i+l], marker) {
+			if !isSpace(src[i-1]) || len(src) < i+l || !bytes.Equal(src[i:i+l], marker) {
 				i = p
 				continue
 			}
